@@ -50,3 +50,33 @@ repo: $(SIMOBJS)
 
 clean:
 	rm -rf $(B)
+
+# ---------------------------------------------------------------- W2: real embedded daemon + Linux port over a simulated libc
+# W2FLAV=tsancb : core compiled by clang with -fsanitize=thread instrumentation, linked against OUR callbacks
+#                 (pre-emption at every memory access + happens-before race detector); daemon and port uninstrumented
+# W2FLAV=asan   : core, daemon and port compiled by gcc with ASan+UBSan (pre-emption at libc calls only)
+W2FLAV ?= tsancb
+W2DIR := $(B)/w2-$(KEY)-$(W2FLAV)
+DAEMONDEFS := -D LINUX -DLLTD_BACKEND_EMBEDDED -DLLTD_USE_CONSOLE
+ifeq ($(W2FLAV),tsancb)
+W2CC := clang
+W2CORESAN := -fsanitize=thread
+W2SAN :=
+else
+W2CC := gcc
+W2CORESAN := -fsanitize=address,undefined -fno-sanitize-recover=all -fno-omit-frame-pointer
+W2SAN := $(W2CORESAN)
+endif
+.PHONY: w2
+w2:
+	@mkdir -p $(W2DIR)
+	@rm -f $(W2DIR)/*.o $(W2DIR)/w2sim
+	@for f in $(CORESRC); do $(W2CC) -std=gnu11 -O1 -fno-inline -g $(W2CORESAN) -I$(VERIF_REPO)/lltdResponder -c $(VERIF_REPO)/lltdResponder/$$f.c -o $(W2DIR)/$$f.o 2>$(W2DIR)/$$f.log & done; \
+	 $(W2CC) -std=gnu11 -O1 -g $(W2SAN) $(DAEMONDEFS) -Dmain=lltd_embedded_main -I$(VERIF_REPO)/os/linux -c $(VERIF_REPO)/os/linux/daemon/linux-embedded-main.c -o $(W2DIR)/daemon.o 2>$(W2DIR)/daemon.log & \
+	 $(W2CC) -std=gnu11 -O1 -g $(W2SAN) $(DAEMONDEFS) -I$(VERIF_REPO)/os/linux -c $(VERIF_REPO)/os/linux/lltd_port.c -o $(W2DIR)/port.o 2>$(W2DIR)/port.log & \
+	 $(W2CC) -std=gnu11 -O1 -g -I$(VERIF_REPO) -c w2/w2glue.c -o $(W2DIR)/w2glue.o 2>$(W2DIR)/w2glue.log & \
+	 $(CXX) -std=c++17 -O2 -g -fno-omit-frame-pointer -Wall -Wextra -Wno-unused-parameter -Wno-array-compare -Isim -c w2/w2.cc -o $(W2DIR)/w2.o 2>$(W2DIR)/w2.log & wait
+	@for f in $(CORESRC) daemon port w2glue w2; do test -f $(W2DIR)/$$f.o || { cat $(W2DIR)/$$f.log; echo "BUILD FAILED: $$f"; exit 1; }; done
+	@for f in daemon port; do objcopy --redefine-syms=w2/redefine.txt $(W2DIR)/$$f.o; done
+	@for f in $(CORESRC); do objcopy --rename-section .bss=corebss --rename-section .data=coredata $(W2DIR)/$$f.o; done
+	$(CXX) -no-pie -pthread $(W2SAN) -o $(W2DIR)/w2sim $(W2DIR)/w2.o $(W2DIR)/w2glue.o $(W2DIR)/daemon.o $(W2DIR)/port.o $(patsubst %,$(W2DIR)/%.o,$(CORESRC))
